@@ -212,15 +212,16 @@ theorem fault_is_retried (s : St) (u : Nat) (hu : u ∈ chkpntUsers s) :
 /-! ### 4. a new daemon restores the spool -/
 
 /-- every task of a well-formed spool is accepted by `_inject_task1(t, NOT_A_UID)` in the root daemon: the
-absent peer (`NOT_A_UID`: no socket peer) acts for the known owner the `OWNER` field names, and the uid is free -/
+absent peer (`NOT_A_UID`: no socket peer) acts for the known owner the `OWNER` field names, and the uid is free
+(`hu`: and a usable one; a task without is turned down, `C11.empty_uid_refused`) -/
 theorem spool_inject_succeeds {s : St} (hme : s.me = 0) {o : Nat} (hk : Known s o) (uid : String)
-    (ms dur : Nat) (occ : List Nat) (hfree : absMap s uid = none) :
+    (ms dur : Nat) (occ : List Nat) (hfree : absMap s uid = none) (hu : uid ≠ "") :
     (inject s uid (some o) ms dur occ true notAUid).2 = true :=
   (C11.inject_success_iff s uid (some o) ms dur occ true notAUid).mpr
-    ⟨rfl, o, effOwner_spool hk (Or.inl hme), Or.inl hfree⟩
+    ⟨rfl, hu, o, effOwner_spool hk (Or.inl hme), Or.inl hfree⟩
 
 /-- `reload_restores`: for a well-formed spool (`FilesOK`: ascending streams, one task per uid over all
-files, every task in the file of its owner, owners known) the table of the root daemon started on it at
+files, every task in the file of its owner, owners known, no task without a usable UID) the table of the root daemon started on it at
 clock value `now` consists of in-table records only, one per task of the files and in their order, with the
 uid, owner, limit and duration of the file and the stream of the file without the occurrences earlier than
 `now`; the new state is well-formed -/
@@ -370,6 +371,7 @@ example : FilesOK [(1001, [{ sid := 0, uid := "j", owner := 1001, occ := [5, 9, 
   uids := by decide
   owner := by simp
   known := by simp [Known, notAUid]
+  uidNe := by simp
 
 /-- a new daemon at clock value 8: past occurrences are dropped; a task left without occurrences is loaded
 (and unscheduled by the next iteration); a user daemon (`me = 1001`) refuses the tasks of other users -/
@@ -479,5 +481,11 @@ example :
   intro s
   exact ⟨C11.reachable_inv 0 _ (by simp [cancelHist, List.replicate, Mono, instrSorted]),
     by decide, by decide, by decide, by decide, by decide⟩
+
+/-- why `FilesOK` asks for usable UIDs: a task without one in a queue file is turned down by the new daemon
+(`C11.empty_uid_refused`); no daemon writes such a file (`C11.reachable_uid_ne`, `chkpnt_spool_ok`) -/
+example :
+    (reload [(1001, [{ sid := 0, uid := "", owner := 1001, occ := [9], dur := 0, maxSimul := 63 }])] 0 8).tasks = [] := by
+  decide
 
 end C06
